@@ -4,7 +4,7 @@ from __future__ import annotations
 
 from vfw.gen.corpus import rng
 
-VERSION = 1
+VERSION = 2
 
 SCHEMA = """
 CREATE TABLE t1 (a INTEGER, b TEXT, c REAL);
@@ -55,9 +55,16 @@ class _Q:
         if x < 0.65:
             self.feats.add("case")
             return f"{self.kw('case')} {self.kw('when')} {c} {r.choice(['>', '>=', '=', '<>', '!='])} {r.randint(1, 3)} {self.kw('then')} 1 {self.kw('else')} 0 {self.kw('end')}"
-        if x < 0.72:
+        if x < 0.69:
             self.feats.add("case")
             return f"{self.kw('case')} {self.kw('when')} {c} {self.kw('is')} {self.kw('null')} {self.kw('then')} 0 {self.kw('else')} {c} {self.kw('end')}"
+        if x < 0.72:
+            self.feats.add("case_multi")
+            t, f_ = r.choice([("TRUE", "FALSE"), ("true", "false"), ("1", "0"), ("FALSE", "TRUE"), ("'y'", "'n'")])
+            c2 = r.choice(cols)
+            els = r.choice([f" {self.kw('else')} {f_}", f" {self.kw('else')} {f_}", "", f" {self.kw('else')} {self.kw('null')}"])
+            return (f"{self.kw('case')} {self.kw('when')} {c} > {r.randint(1, 3)} {self.kw('then')} {t} {self.kw('when')} {c2} < {r.randint(1, 3)} {self.kw('then')} "
+                    f"{r.choice([t, t, f_])}{els} {self.kw('end')}")
         if x < 0.8:
             self.feats.add("cast")
             return f"{self.kw('cast')}({c} {self.kw('as')} {self.kw(r.choice(['integer', 'text', 'real']))})"
@@ -81,8 +88,13 @@ class _Q:
             return f"{c} {self.kw('between')} 1 {self.kw('and')} 3"
         if x < 0.82:
             return f"({self.pred(cols)} {self.kw(r.choice(['and', 'or']))} {self.pred(cols)})"
-        if x < 0.9:
+        if x < 0.86:
             return f"{self.kw('not')} {c} = 2"
+        if x < 0.9:
+            self.feats.add("case_multi")
+            t, f_ = r.choice([("TRUE", "FALSE"), ("FALSE", "TRUE"), ("1", "0")])
+            return (f"{self.kw('case')} {self.kw('when')} {c} = {r.randint(1, 3)} {self.kw('then')} {t} {self.kw('when')} {c} >= {r.randint(2, 4)} {self.kw('then')} {r.choice([t, f_])} "
+                    f"{self.kw('else')} {f_} {self.kw('end')}")
         self.feats.add("subquery")
         return f"{c} {self.kw('in')} ({self.kw('select')} x {self.kw('from')} t3)"
 
